@@ -45,6 +45,7 @@ type sched struct {
 	hung      [maxTasks]bool // the task sits in a Write that never returns ("hang" fault)
 	nHung     int
 	nStuck    int            // tasks left waiting behind a hung one when the episode ended
+	seq       bool           // the scheduler of a sequential phase (set-up, tail): task 1 is the interpreter itself, event identity 0
 	gone      [maxTasks]bool // R8: the library goroutine in this slot has ended
 	owner     [maxTasks]int  // R8: for a goroutine the library started itself, the caller task on whose behalf it runs
 	spawned   int
@@ -168,6 +169,36 @@ func (w *W) runTasks() {
 	w.tSched.out = out
 }
 
+// runSeq runs a sequential phase (set-up, tail) on the calling goroutine, under a scheduler of its own in which
+// that goroutine is the only task to begin with. As long as the library starts no goroutine there, nothing is
+// decided and nothing is consumed (one task: no yield point chooses). A goroutine the library starts (rule R8)
+// becomes a second task, and from then on the phase is scheduled like the concurrent one - by choices that are a
+// function of the episode's seed, not part of the recorded tape (which belongs to the caller tasks' phase).
+func (w *W) runSeq(phase string, ops []scen.Op) {
+	s := &sched{w: w, n: 1, seq: true, spin: raceEnabled, done: make(chan struct{}), joined: make(chan int, 1<<16)}
+	s.stay = 500
+	s.maxYields = 400000
+	s.rs = scen.Mix(w.sc.Seed, scen.HashString("seq:"+phase))
+	s.wake = make([]chan struct{}, maxTasks)
+	for i := range s.wake {
+		s.wake[i] = make(chan struct{}, 1)
+	}
+	s.alive[1] = true
+	s.nAlive = 1
+	s.cur = 1
+	s.turn = 1
+	w.sch = s
+	w.runOps(0, phase, ops)
+	s.finished = true
+	w.sch = nil
+	if s.lockWaits > 0 {
+		w.stats["sched.lock_waits_seq"] += s.lockWaits
+	}
+	if s.spawned > 0 {
+		w.stats["sched.library_goroutines_seq"] += s.spawned
+	}
+}
+
 func (w *W) runTaskOps(task int, ops []scen.Op) {
 	if w.quiet {
 		for i := range ops {
@@ -204,7 +235,7 @@ func (s *sched) current() int { return s.cur }
 //go:norace
 func (s *sched) choose(n int, stayBias bool) int {
 	v := 0
-	if s.replay {
+	if s.replay && !s.seq {
 		if s.tpos < s.tinLen {
 			v = int(s.tin[s.tpos])
 			if v < 0 {
